@@ -649,6 +649,19 @@ def World.step (w : World) (line : String) : World :=
           | none => false
         if ok then w.exec op' args' else w.say "ret skip"
       | _ => w.say "ret skip"
+    else if op == "ifroom" then
+      -- the application keeps at most 256 unacknowledged reliable bunches per channel: `<op>` only while the channel has room
+      match args with
+      | id :: chs :: op' :: args' =>
+        let ok := match w.getEp (toNat! id) with
+          | some r => match r.node with
+            | .conn wr => match wr.ep.c.getChan (toNat! chs) with
+              | some x => decide (x.outRec.length + 1 < reliableBuffer)
+              | none => true
+            | _ => false
+          | none => false
+        if ok then w.exec op' args' else w.say "ret skip"
+      | _ => w.say "ret skip"
     else w.exec op args
 
 end Utcp
